@@ -488,9 +488,11 @@ def amalgamate_csr_to_x(
             n_valid += src['data'].shape[0]
             if data_dtype is None:
                 data_dtype = src['data'].dtype
-            this_max = src['indices'][()].max()
-            if this_max > indices_max:
-                indices_max = this_max
+            these_indices = src['indices'][()]
+            if len(these_indices) > 0:
+                this_max = these_indices.max()
+                if this_max > indices_max:
+                    indices_max = this_max
 
     cutoff = np.iinfo(np.int32).max
     if indices_max >= cutoff or n_valid >= cutoff:
@@ -507,17 +509,23 @@ def amalgamate_csr_to_x(
         grp.attrs.create(
             name='shape', data=np.array(final_shape))
 
+        if n_valid > 0:
+            data_chunks = min(n_valid, 20000)
+        else:
+            data_chunks = None
+            compression = None
+            compression_opts = None
         dst_data = grp.create_dataset(
             'data',
             shape=(n_valid,),
-            chunks=min(n_valid, 20000),
+            chunks=data_chunks,
             dtype=data_dtype,
             compression=compression,
             compression_opts=compression_opts)
         dst_indices = grp.create_dataset(
             'indices',
             shape=(n_valid,),
-            chunks=min(n_valid, 20000),
+            chunks=data_chunks,
             dtype=index_dtype,
             compression=compression,
             compression_opts=compression_opts)
